@@ -329,7 +329,12 @@ fn e3(tier: Tier, rep: &mut Report) -> E3Stats {
     use std::cell::RefCell;
     let mut st = E3Stats { model_states: 0, model_transitions: 0, traces_validated: 0, edges_total: 0, edges_covered: 0, drift: None, model_violations: vec![], directed_runs: 0, directed_edges_total: 0, directed_edges_covered: 0, directed_capped: false };
     let bound = if tier.is_quick() { 1 } else { 2 };
+    let mut seen_free: std::collections::HashSet<String> = Default::default();
     for (p, _) in scenario_params(tier) {
+        // thorough: one free-exploration pass per size mix and receiver mode is enough for binding
+        if !tier.is_quick() && !seen_free.insert(format!("{:?}/{:?}", p.seqs, p.mode)) {
+            continue;
+        }
         let cfg = Config { packets: p.seqs.iter().map(|s| s.iter().map(|z| packets_of(*z)).collect()).collect() };
         let g = pmodel::explore(&cfg);
         st.model_states += g.states as u64;
@@ -343,7 +348,7 @@ fn e3(tier: Tier, rep: &mut Report) -> E3Stats {
         base.trace = true;
         let mut ec = ExploreCfg::new(base, bound);
         ec.determinism_every = 0;
-        ec.max_wall_s = if tier.is_quick() { 4.0 } else { 120.0 };
+        ec.max_wall_s = if tier.is_quick() { 4.0 } else { 20.0 };
         let pp = p.clone();
         let stats = explore(&ec, &move || body(&pp), &|o| {
             e1::strict_judge(o)?;
@@ -403,7 +408,7 @@ fn e3(tier: Tier, rep: &mut Report) -> E3Stats {
         let mut edges: Vec<(u64, pmodel::PAct)> = g.edges.iter().copied().collect();
         edges.sort_by_key(|(h, a)| (sp.get(h).map(|x| x.1.len()).unwrap_or(0), *h, format!("{:?}", a)));
         let t0 = std::time::Instant::now();
-        let cap = if tier.is_quick() { 6.0 } else { 600.0 };
+        let cap = if tier.is_quick() { 6.0 } else { 60.0 };
         let mut idx = 0;
         while idx < edges.len() {
             if t0.elapsed().as_secs_f64() > cap {
